@@ -43,11 +43,12 @@ def run_operands(tier, funcs, index, enums, res):
     small = [w for w in c11.PAIR_VOCAB if w in ("-type", "-size", "-inum", "-mtime", "-maxdepth", "-regextype", "-printf", "-newermm", "-newermmx", "--newermm", "f", "q", "", "5", "+5M", "x5k", "-+5",
                                                  "99999999999999999999", "sed", "bogus", "%p\\n", "%", "-print", "!", "(", ")")]
     plans = [(1, c11.PAIR_VOCAB), (2, c11.PAIR_VOCAB), (3, small if tier == "quick" else c11.PAIR_VOCAB)]
+    plans += [(1, c11.EXEC_VOCAB), (2, c11.EXEC_VOCAB), (3, c11.EXEC_VOCAB), (4, c11.EXEC_SMALL if tier == "quick" else c11.EXEC_VOCAB)]
     for n, vocab in plans:
         r = c11.explore(n, funcs, index, enums, vocab)
         res["functions_executed"].update(r.pop("functions_executed"))
         for v in r.pop("violations"):
-            prim = next((t for t in v["tokens"] if t in c11.PRIMS + c11.NEWER_JUNK), "?")
+            prim = next((t for t in v["tokens"] if t in c11.PRIMS + c11.NEWER_JUNK + ["-exec", "-execdir", "-user", "-group"]), "?")
             res["violations"].append({"key": "operand | %s | %s" % (prim, v["what"].split("(")[0].strip()), "summary": "%s: %s" % (" ".join(repr(t) for t in v["tokens"]), v["what"]),
                                       "replayer": "operand_cli", "tokens": v["tokens"], "what": v["what"]})
         for k, c in r.pop("unsupported").items():
@@ -58,7 +59,8 @@ def run_operands(tier, funcs, index, enums, res):
     res["target"] += ("; operand-taking primaries: build_top_level_matcher with convert_arg_to_number, convert_arg_to_comparable_value(_and_suffix), parse_str_to_newer_args, "
                       "Type/XtypeMatcher::new, SizeMatcher::new + Unit::from_str, RegexType::from_str, Printf::new + FormatString::parse (regex crate modelled by Python re on the pattern text in the MIR)")
     res["bounds"] += ("; operand primaries: every sequence of 1..2 tokens over %d words (%d primaries incl. -newerXY spellings with junk, %d operand words: valid values, near-misses, "
-                      "huge numbers, empty string; -print ! -o ( )) and of 3 tokens over %d words; acceptance only" % (len(c11.PAIR_VOCAB), len(c11.PRIMS) + len(c11.NEWER_JUNK),
+                      "huge numbers, doubly signed numbers, empty string; -print ! -o ( )) and of 3 tokens over %d words; -exec / -execdir with and without terminator, '{} +' with no / one / two '{}', "
+                      "-user / -group with known names (a model of the passwd / group lookup: root, daemon), unknown names, numbers, 2^32, the empty string: 1..3 tokens over 16 words, 4 over 8; acceptance only" % (len(c11.PAIR_VOCAB), len(c11.PRIMS) + len(c11.NEWER_JUNK),
                                                                                                                    len(c11.OPERANDS), len(plans[2][1])))
 
 
@@ -436,6 +438,21 @@ def run_regex(tier, funcs, index, enums, res):
                          len(c17.TEMPLATES), list(c17.TEMPLATES), c17.TYPE_WORDS, c17.PATTERNS, list(c17.FULL_IN_QUICK), c17.QUICK_TYPES, c17.QUICK_PATTERNS, c17.SUBJECTS))
 
 
+def run_perm(tier, funcs, index, enums, res):
+    import c13_perm
+    r = c13_perm.explore(funcs, index, enums)
+    res["functions_executed"].update(r.pop("functions_executed"))
+    for v in r.pop("violations"):
+        res["violations"].append({"key": "perm | " + v["what"].split("'")[1] if "'" in v["what"] else "perm", "summary": v["what"], "replayer": "perm_bits", "what": v["what"]})
+    for k, c in r.pop("unsupported").items():
+        res["unsupported"][k] = res["unsupported"].get(k, 0) + c
+    r["bound"] = "-perm operands: %d words x %d file modes" % (len(c13_perm.OPERANDS), len(c13_perm.FILE_MODES))
+    r["inputs_covered"] = r.pop("checks")
+    res["runs"].append(r)
+    res["target"] += "; PermMatcher::new + split_comparison_type + parse_mode + ComparisonType::mode_bits_match from MIR (uucore::mode::{parse_numeric, parse_symbolic} are ports of uucore's source, given the arguments the code passes)"
+    res["bounds"] += "; -perm: operands %r (well-formed and malformed), each read as chmod would apply it to 0 with umask 0 (malformed ones must be refused), then matched against the file modes %s" % (c13_perm.OPERANDS, [oct(x) for x in c13_perm.FILE_MODES])
+
+
 def main():
     prop, tier, out = sys.argv[1], sys.argv[2], sys.argv[3]
     t0 = time.time()
@@ -446,6 +463,7 @@ def main():
         run_parser(tier, funcs, index, enums, res)
         if prop == "C11":
             run_operands(tier, funcs, index, enums, res)
+            run_perm(tier, funcs, index, enums, res)
     elif prop == "C06":
         run_wiring(tier, funcs, index, enums, res)
         orders = res.pop("limiter_orders", {})
@@ -482,6 +500,21 @@ def main():
             res["target"] += "; " + tb[0]; res["bounds"] += "; " + tb[1]
         if prop == "C19":
             run_classify(tier, funcs, index, enums, res)
+            # "its own input errors (unterminated quote) give exit status 1": whether the reader reports the error at all, on every input of 1..3 bytes
+            import c05_readers as r5
+            for n in (1, 2, 3):
+                r = r5.explore("ws", n, r5.ALPHA_SMALL + [0x22], funcs, index, enums)
+                res["functions_executed"].update(r.pop("functions_executed"))
+                for v in r.pop("violations"):
+                    res["violations"].append({"key": "input error | %s" % v["what"].split(",")[0][:40], "summary": "whitespace reader, input %s, read() sizes %s: %s" % (v.get("input"), v.get("chunks"), v["what"]),
+                                              "replayer": "reader_bytes", "kind": "ws", "input": v.get("input"), "delimiter": None, "chunks": v.get("chunks"), "what": v["what"]})
+                for k, c in r.pop("unsupported").items():
+                    res["unsupported"][k] = res["unsupported"].get(k, 0) + c
+                r["bound"] = "ws reader (input errors), %d bytes over 6 letters" % n
+                r.pop("chunkings")
+                res["runs"].append(r)
+            res["target"] += "; WhitespaceDelimitedArgumentReader::next until end of input: an unterminated quote is reported as an error (which xargs_main maps to exit status 1), nothing else is"
+            res["bounds"] += "; input errors: every input of 1..3 bytes over {a, blank, newline, ', \\, \"} under every read() chunking"
     elif prop in ("C18", "C02"):
         run_startpoints(tier, funcs, index, enums, res)
         if prop == "C02":
@@ -564,18 +597,7 @@ def main():
             res["runs"].append(r)
         res["target"] += "; parse_args + do_find on command lines of leading follow flags (process_dir a recorder): the follow mode in force"
         res["bounds"] += "; follow flags: every command line of 1..4 tokens over %r - the mode is that of the last of -P / -H / -L before the first operand" % fv
-        import c13_perm
-        r = c13_perm.explore(funcs, index, enums)
-        res["functions_executed"].update(r.pop("functions_executed"))
-        for v in r.pop("violations"):
-            res["violations"].append({"key": "perm | " + v["what"].split("'")[1] if "'" in v["what"] else "perm", "summary": v["what"], "replayer": "perm_bits", "what": v["what"]})
-        for k, c in r.pop("unsupported").items():
-            res["unsupported"][k] = res["unsupported"].get(k, 0) + c
-        r["bound"] = "-perm operands: %d words x %d file modes" % (len(c13_perm.OPERANDS), len(c13_perm.FILE_MODES))
-        r["inputs_covered"] = r.pop("checks")
-        res["runs"].append(r)
-        res["target"] += "; PermMatcher::new + split_comparison_type + parse_mode + ComparisonType::mode_bits_match from MIR (uucore::mode::{parse_numeric, parse_symbolic} are ports of uucore's source, given the arguments the code passes)"
-        res["bounds"] += "; -perm: operands %r, each read as chmod would apply it to 0 with umask 0, then matched against the file modes %s" % (c13_perm.OPERANDS, [oct(x) for x in c13_perm.FILE_MODES])
+        run_perm(tier, funcs, index, enums, res)
     elif prop == "C07":
         run_print0(tier, funcs, index, enums, res)
         run_readers(tier, funcs, index, enums, res, only_bytes=True)
